@@ -13,6 +13,7 @@ import Restful.Lemmas.RouteSelected
 import Restful.Lemmas.CurlyMatch
 import Restful.Lemmas.ReadTemplate
 import Restful.Lemmas.JsrMatch
+import Restful.Lemmas.StateShape
 namespace Restful
 namespace Props
 variable (E : ReEnv)
@@ -110,6 +111,12 @@ example :
       route ⟨fun _ _ => true, fun _ _ => true⟩ cfg { method := "GET".toList, path := "/users/42/report.json:export".toList } =
         .selected 0 7 [("id".toList, "42".toList), ("file".toList, "report".toList)] := by
   decide
+
+/-! The frame condition (Lemmas/StateShape.lean): the code has exactly the state this property's model
+    accounts for — no further package-level variable, struct type or field; constants as modelled. -/
+-- also: Restful.StateShape.globals_shape
+-- also: Restful.StateShape.consts_shape
+-- also: Restful.StateShape.routing_shape
 
 end Props
 end Restful
